@@ -31,7 +31,7 @@ def qlist(xs):
 
 def run(ctx):
     ctx.rule = ("random tubes (r 10-25, t/r 0.1-0.2, nr 3-5, nt 4-8, nz 2-4, 1D/2D/3D), elastic NEML materials with constant, affine "
-                "or kinked expansion coefficient, 2-4 step histories of nodal temperature (radial/circumferential/axial variation, "
+                "or kinked expansion coefficient and constant or temperature-dependent Young's modulus, 2-4 step histories of nodal temperature (radial/circumferential/axial variation, "
                 "uniform, outer-surface-only, slow drifts of a few mK per step), pressure and top displacement; creeping/plastic shipped models at 850-950 K for the causality variants; variants: altered future, trial solves, first state created without a time index, refined "
                 "steps, forced sub-increments, free expansion.  one case = one tube run; all non-trivial")
     ctx.trusted += ["scikit-fem assembly and interpolation, NEML SmallStrainElasticity (the finite-element solve is run, not modelled)",
@@ -55,6 +55,9 @@ def run(ctx):
     for i in range(nbase):
         c = gen_geometry(rng, dim=[1, 2, 3][i % 3])
         c["material"] = gen_material(rng, alpha=["const", "affine", "kink"][(i // 3) % 3])
+        if i % 2 == 1:      # Young's modulus falling with temperature: the end state must still not depend on the steps taken
+            E0 = c["material"]["E"]
+            c["material"]["E_T"], c["material"]["E_v"] = [-500.0, 300.0, 700.0, 3000.0], [1.1 * E0, E0, 0.6 * E0, 0.3 * E0]
         c.update(gen_history(rng, c, outer_only=(i % 5 == 3), drift=(i % 5 == 1), nsteps=(4 if i % 5 == 1 else None)))
         c["probe"] = ["mesh"]
         b = add(c, "base")
